@@ -38,6 +38,10 @@ try:
         for l in lines[:12]:
             print("   " + l[:260])
         sys.stdout.flush()
+        for f in os.listdir(cache):
+            if f.startswith("nondet-"):
+                shutil.copy(os.path.join(cache, f), "/dev/shm/" + f + "." + os.path.basename(scratch))
+                print("   nondeterminism details kept in /dev/shm/" + f + "." + os.path.basename(scratch))
 finally:
     subprocess.run(["git", "-C", "/repo", "worktree", "remove", "--force", wt])
     if keep:
